@@ -66,6 +66,25 @@ def callers_of(p, fid, allowed=None):
     return sorted(p.effective_callers(fid, allowed))
 
 
+def family(p, f):
+    """f, its closures, and - on an inlined view - the closures of the helpers that were inlined into it (the closure bodies are
+    separate functions; what `iter().map(|e| e.state = X)` does is done there)"""
+    ids = [f.id]
+    for fid, _, _ in getattr(f, "origins", None) or ():
+        if fid not in ids:
+            ids.append(fid)
+    out, seen = [f], {f.id}
+    work = list(ids)
+    while work:
+        x = work.pop()
+        for c in p.closure_children.get(x, ()):
+            if c not in seen:
+                seen.add(c)
+                out.append(p.fns[c])
+                work.append(c)
+    return out
+
+
 def each_fn(p):
     """every function, in id order: on the inlined evaluation the view of each function that is not itself dissolved into
     its callers (a rule that looks for a guard before a sink sees the guard a small helper was given)"""
